@@ -46,6 +46,7 @@ static int g_wall_limit = 60;
 static int g_emit_trace = 0;
 static int g_stop_on_fail = 0, g_failed = 0;
 static int g_slot_guard = 0;
+static int g_read_fail_keeps = 0;
 
 /* ------------------------------------------------------------------ verdict plumbing */
 
@@ -183,7 +184,7 @@ static void world_defaults(void)
     W.nthreads_icv = 16; W.max_active_levels = 1; W.thread_limit = 64; W.team_fail_above = 32768;
     W.max_steps = 50000000ULL; W.junk_on = 1; W.junk_seed = 1; W.alloc_fail_at = -1;
     W.clock_epoch = 1700000000; W.clock_step = 0; W.explicit_decisions = 0;
-    g_wall_limit = 60; g_emit_trace = 0; g_hooks_log_on = 0; g_c10_on = 1; g_stop_on_fail = 0; g_slot_guard = 0;
+    g_wall_limit = 60; g_emit_trace = 0; g_hooks_log_on = 0; g_c10_on = 1; g_stop_on_fail = 0; g_slot_guard = 0; g_read_fail_keeps = 0;
 }
 
 static void set_world(const char *k, const char *v)
@@ -196,6 +197,8 @@ static void set_world(const char *k, const char *v)
     else if (!strcmp(k, "max_active_levels")) W.max_active_levels = (int)x;
     else if (!strcmp(k, "thread_limit")) W.thread_limit = (int)x < 1 ? 1 : (int)x;
     else if (!strcmp(k, "team_fail_above")) W.team_fail_above = (int)x;
+    else if (!strcmp(k, "p_sb")) W.p_sb = (uint32_t)x;
+    else if (!strcmp(k, "read_fail_keeps")) g_read_fail_keeps = (int)x;
     else if (!strcmp(k, "unusual_seed")) W.unusual_seed = (uint64_t)x;
     else if (!strcmp(k, "p_defer")) W.p_defer = (uint32_t)x;
     else if (!strcmp(k, "p_switch")) W.p_switch = (uint32_t)x;
@@ -314,7 +317,9 @@ static void exec_op(int idx, OpLine *o)
         leave();
         g_slot_final[sl] = 0;
         fprintf(g_out, "r %d R rc=%d null=%d\n", idx, rc, g_slot[sl] == NULL);
-        if (rc != 0) { g_failed = 1; g_slot_failed[sl] = 1; }
+        /* a refused source (another alphabet, unreadable file) leaves the collection as it was: with read_fail_keeps
+           the caller goes on using the object it already had */
+        if (rc != 0) { g_failed = 1; if (!(g_read_fail_keeps && g_slot[sl])) g_slot_failed[sl] = 1; }
         sim_xfree(path);
     } else if (!strcmp(op, "X")) {
         int sl = atoi(o->tok[1]);
@@ -416,6 +421,13 @@ static void exec_op(int idx, OpLine *o)
         leave();
         fprintf(g_out, "r %d T rc=%d msg=%s\n", idx, bad, bad ? msg : "-");
         if (bad) sim_note_violation("H_OMP_SELFTEST", "%s", msg);
+    } else if (!strcmp(op, "T2")) {
+        /* T2 nthreads: store-buffering litmus test; rc = 1 if both sides read 0 (possible only with the store-buffer model on) */
+        extern int sim_omp_litmus_sb(int nthreads);
+        enter();
+        int both0 = sim_omp_litmus_sb(atoi(o->tok[1]));
+        leave();
+        fprintf(g_out, "r %d T2 rc=%d\n", idx, both0);
     } else if (!strcmp(op, "K")) {
         if (!strcmp(o->tok[1], "clock_jump")) simclock_jump(strtoll(o->tok[2], NULL, 0));
         else set_world(o->tok[1], o->tok[2]);
